@@ -4,7 +4,9 @@
 # Writes seeded/MATRIX.txt. Do not edit altsim sources while it runs (every shard copies them per change).
 cd /verif || exit 2
 n=${1:-4}
-ids=$(ls seeded | grep -E '^C[0-9]+-')
+# IDS="<id> ..." restricts the run to those changes; OUT=<file> names the result file (default seeded/MATRIX.txt)
+ids=${IDS:-$(ls seeded | grep -E '^C[0-9]+-')}
+out=${OUT:-seeded/MATRIX.txt}
 k=0
 for s in $(seq 1 $n); do : > /var/tmp/matrix-shard-$s.txt; done
 for s in $(seq 1 $n); do
@@ -22,5 +24,5 @@ for s in $(seq 1 $n); do
 done
 wait
 git -C /repo worktree prune
-cat /var/tmp/matrix-shard-*.txt | sort > seeded/MATRIX.txt
-echo "caught: $(grep -c CAUGHT seeded/MATRIX.txt) of $(wc -l < seeded/MATRIX.txt); not caught: $(grep -v CAUGHT seeded/MATRIX.txt | cut -d: -f1 | tr '\n' ' ')"
+cat /var/tmp/matrix-shard-*.txt | sort > $out
+echo "caught: $(grep -c CAUGHT $out) of $(wc -l < $out); not caught: $(grep -v CAUGHT $out | cut -d: -f1 | tr '\n' ' ')"
